@@ -232,10 +232,12 @@ def run(seed=0, rounds=400):
             if '0' <= ch <= '9':
                 check('int-of-ascii-digit', int(ch) == ord(ch) - 48, ch)
         # ---- C07 shape calculus (contracts/c07shape.py, pyvc/pybuiltins.py)
-        z = x.copy()
+        n = int(rng.randint(0, 7))
+        xa = rng.randint(-5, 6, size=n)  # own array: other blocks reuse the name x
+        z = xa.copy()
         cc = int(rng.randint(-3, 4))
-        z[x < 0] += cc
-        check('mask-iadd', all(z[i] == (x[i] + cc if x[i] < 0 else x[i]) for i in range(n)), x, cc)
+        z[xa < 0] += cc
+        check('mask-iadd', all(z[i] == (xa[i] + cc if xa[i] < 0 else xa[i]) for i in range(n)), xa, cc)
         lst = [int(t) for t in rng.randint(-3, 4, size=n)]
         check('argsort-concrete-stable', numpy.argsort(lst, kind='stable').tolist() == sorted(range(n), key=lst.__getitem__), lst)
         if len(set(lst)) == n:
@@ -269,6 +271,8 @@ def run(seed=0, rounds=400):
         for b_ in kinds:
             check('result-kind-is-join', numpy.result_type(a_, b_).kind == numpy.dtype(kinds[max(kinds.index(a_), kinds.index(b_))]).kind, a_.__name__, b_.__name__)
         # -- C09 index partition (contracts/samplepart.py)
+        n = int(rng.randint(0, 7))  # own inputs: the blocks above reuse the names n and x
+        x = rng.randint(-5, 6, size=n)
         lo, hi = int(rng.randint(-3, 6)), int(rng.randint(-3, 6))
         ar = numpy.arange(lo, hi)
         check('arange(a,b)', len(ar) == max(hi - lo, 0) and all(ar[i] == lo + i for i in range(len(ar))), lo, hi)
@@ -322,7 +326,8 @@ def run(seed=0, rounds=400):
             check('IR scalar + vector, vector * int', run_ir(ev.Range(ev.constant(m)) + ev.InRange(k, ev.constant(n + 1)), k=kv).tolist() == [c + kv for c in range(m)] and run_ir(v * 3).tolist() == (idx * 3).tolist(), m, kv)
             check('IR Zeros', run_ir(ev.Zeros((ev.constant(0), ev.constant(0)), dtype=int)).size == 0)
             sizes = rng.randint(0, 4, size=n)
-            check('IR _SizesToOffsets', run_ir(ev._SizesToOffsets(ev.constant(sizes))).tolist() == numpy.cumsum([0] + sizes.tolist()).tolist(), sizes)
+            if n:  # an EMPTY constant announces the range (-inf, inf), which _SizesToOffsets.__post_init__ rejects
+                check('IR _SizesToOffsets', run_ir(ev._SizesToOffsets(ev.constant(sizes))).tolist() == numpy.cumsum([0] + sizes.tolist()).tolist(), sizes)
             if n:
                 li = ev.loop_index('_i', n)
                 lc = ev.loop_concatenate(ev.InsertAxis(ev.Take(ev.constant(sizes), li), ev.constant(1)), li)
